@@ -61,7 +61,41 @@ def plan(tier):
             if not (c == "DiHypergraph" and f == "largest_connected_hypergraph"):
                 p[f"{c}.xgi:{f}"] = k
         p[f"{c}.<state>"] = k
+        p[f"{c}.<create_using>"] = k
     return p
+
+
+def create_using_calls(cls, rng):
+    """(name, thunk(target)) for the library functions that fill the network passed as `create_using`."""
+    import numpy as np
+    import pandas as pd
+
+    edges = [[1, 2, 3], [3, 4]]
+    calls = []
+    if cls == "Hypergraph":
+        calls = [
+            ("empty_hypergraph", lambda t: xgi.empty_hypergraph(create_using=t)),
+            ("trivial_hypergraph", lambda t: xgi.trivial_hypergraph(3, create_using=t)),
+            ("from_hyperedge_list", lambda t: xgi.from_hyperedge_list(edges, create_using=t)),
+            ("from_hyperedge_dict", lambda t: xgi.from_hyperedge_dict({"x": [1, 2]}, create_using=t)),
+            ("from_incidence_matrix", lambda t: xgi.from_incidence_matrix(np.array([[1, 0], [1, 1]]), create_using=t)),
+            ("from_bipartite_pandas_dataframe", lambda t: xgi.from_bipartite_pandas_dataframe(pd.DataFrame([[1, 0], [2, 0]]), create_using=t)),
+            ("to_hypergraph", lambda t: xgi.to_hypergraph(edges, create_using=t)),
+        ]
+    elif cls == "DiHypergraph":
+        calls = [
+            ("empty_dihypergraph", lambda t: xgi.empty_dihypergraph(create_using=t)),
+            ("to_dihypergraph", lambda t: xgi.to_dihypergraph([([1, 2], [3])], create_using=t)),
+            ("from_hyperedge_list", lambda t: xgi.from_hyperedge_list([([1], [2])], create_using=t)),
+        ]
+    else:
+        calls = [
+            ("empty_simplicial_complex", lambda t: xgi.empty_simplicial_complex(create_using=t)),
+            ("from_simplex_dict", lambda t: xgi.from_simplex_dict({"s": [1, 2, 3]}, create_using=t)),
+            ("to_simplicial_complex", lambda t: xgi.to_simplicial_complex(edges, create_using=t)),
+            ("from_hyperedge_list", lambda t: xgi.from_hyperedge_list(edges, create_using=t)),
+        ]
+    return calls
 
 
 def floors(tier):
@@ -126,6 +160,38 @@ def run_case(mon, kind, idx, rng):
     def fire(key, what, witness):
         mon.fail(key, f"{cls}: {what}", witness)
 
+    if m == "<create_using>":
+        # library functions that fill the network handed over as create_using are in-place functions of that network
+        for name, thunk in create_using_calls(cls, rng):
+            U, F = N.copy(), N.copy()
+            F.freeze()
+            s0, full0 = snap.structure(U), snap.snap(F)
+            try:
+                thunk(U)
+                out_u = "returned"
+            except Exception as exc:
+                out_u = f"raised:{type(exc).__name__}"
+            try:
+                thunk(F)
+                out_f, val_f = "returned", None
+            except Exception as exc:
+                out_f, val_f = f"raised:{type(exc).__name__}", exc
+            mon.ev()
+            mon.note("twin-comparisons")
+            mon.note(f"probed:create_using:{name}")
+            changed_u = snap.structure(U) != s0
+            witness = f"network: {snap.pretty(N)}\ncall: xgi.{name}(..., create_using=<the network>)\nunfrozen twin: {out_u}, structure changed={changed_u}\nfrozen twin: {out_f} -> {snap.pretty(F)}"
+            if changed_u:
+                mon.note("changed-unfrozen-twin")
+                mon.note(f"mutator:create_using:{name}")
+                if out_f == "returned" or not isinstance(val_f, XGIError):
+                    fire(f"{name}(create_using)|frozen|structural-edit-not-rejected", f"xgi.{name}(create_using=F) refills an unfrozen network but on the frozen one it {out_f}", witness)
+                    return
+                mon.note("frozen-raised-XGIError")
+            if snap.snap(F) != full0 or not F.is_frozen:
+                fire(f"{name}(create_using)|frozen|frozen-network-changed", f"xgi.{name}(create_using=F) changed a frozen network ({out_f})", witness)
+                return
+        return
     if m == "<state>":
         F = N.copy()
         mon.ev()
